@@ -3,14 +3,14 @@ META = dict(
     title='Features paint in file order; only covering features matter; operations compose',
     technique='CBMC code contracts (DFCC) on the mechanically extracted feature functions; model calls are interface-contract stubs with ghost protocol state (call order, chained value, forwarded arguments); arbitrary-slot frame argument',
     level_text='Proof per function, for all inputs within the size bounds: the world applies every feature once, in file order (C01/props3d); '
-               'an area feature that does not contain the point leaves every slot of the answer bit-identical; one that does folds exactly its '
+               'an area feature or plume that does not contain the point leaves every slot of the answer bit-identical; one that does folds exactly its '
                'models of the requested kind, in list order, over the value painted so far (an empty list leaves it as it was), writes its own tag, '
                'and writes nothing outside the block of the entry it processes; apply_operation and the uniform composition model implement the '
                'declared operation algebra.',
     level_note='Trusted: translator, shims, CBMC; interface contracts of the model virtuals (any value may be returned); polygon test and depth '
                'surfaces are stubs here (C04/C07/C11). Velocity is specified to restart from zero in every covering feature, as the code does.',
-    scope='ContinentalPlate/OceanicPlate/MantleLayer::properties; World::properties feature loop (shared with C01); apply_operation; uniform composition of all six feature families',
-    not_covered=['Plume, SubductingPlate and Fault properties() (geometry-dependent parts, see C04/C06)', 'random models'],
+    scope='ContinentalPlate/OceanicPlate/MantleLayer/Plume::properties; World::properties feature loop (shared with C01); apply_operation; uniform composition of all six feature families',
+    not_covered=['SubductingPlate and Fault properties() (DFCC does not finish on them, DESIGN 15)', 'random models'],
     enforced_elsewhere={'grains_ctor': 'C02/grains_ctor', 'grains_unroll_into': 'C02/grains_unroll'},
 )
 FAMILIES = [('ContinentalPlate', 'continental_plate'), ('OceanicPlate', 'oceanic_plate'), ('MantleLayer', 'mantle_layer')]
@@ -83,6 +83,26 @@ for fam, fdir in FAMILIES:
                          '__CPROVER_loop_invariant(!g_active ==> (g_next == g_e_next && SAMEL(g_vchain0, g_e_v0) && SAMEL(g_vchain1, g_e_v1) && SAMEL(g_vchain2, g_e_v2)))\n'
                          '__CPROVER_decreases(wb_r5->n - wb_i5)'),
         }))
+
+# Plume::properties: the same fold contract with the plume geometry (contracts/c02_plume_feature.c); also run under C04
+import copy as _copy
+_pl = _copy.deepcopy([u for u in UNITS if u['name'] == 'continental_plate_properties'][0])
+_pfn = 'Features_Plume_properties'
+_pl.update(name='plume_properties', enforce=_pfn, contracts='c02_plume_feature.c',
+           targets=[dict(tu='source/world_builder/features/plume.cc', qual='WorldBuilder::Features::Plume::properties')],
+           stub=['Utilities_fraction_from_ellipse_center', 'Utilities_interpolate_angle_across_zero', 'Objects_NaturalCoordinate_get_surface_coordinates', 'grains_ctor', 'grains_unroll_into'],
+           nothrow=['Objects_NaturalCoordinate_get_surface_coordinates', 'Utilities_interpolate_angle_across_zero', 'grains_ctor', 'grains_unroll_into'],
+           replace=['Utilities_fraction_from_ellipse_center', 'Utilities_interpolate_angle_across_zero', 'Objects_NaturalCoordinate_get_surface_coordinates', 'grains_ctor', 'grains_unroll_into',
+                    'wb_upper_bound_idx', 'CoordinateSystems_Interface_natural_coordinate_system'] +
+                   ['Features_PlumeModels_%s_Interface_%s' % km for km in [('Temperature', 'get_temperature'), ('Composition', 'get_composition'), ('Grains', 'get_grains'), ('Velocity', 'get_velocity')]],
+           outline_fp='all', unwind_complete=3, timeout=1500,
+           inserts=[(r'if \(\(\(\(depth <= this_->max_depth\) && \(depth >= this_->min_depth\)\) && \(relative_distance_from_center <= ', 'PLUME_LEMMA')])
+_pl['defines'] = dict(DEF, WB_CAP_vec_Point2=3)
+_pl['defines'].pop('FAM', None)
+_pl['defines_thorough'] = dict(DEFT, WB_CAP_vec_Point2=3)
+_pl['loops'] = {(_pfn, k): dict((kk, vv.replace('Features_ContinentalPlate_properties', _pfn)) for kk, vv in lc.items()) for (f_, k), lc in _pl['loops'].items()}
+_pl.pop('canaries', None)
+UNITS.append(_pl)
 
 GR = 'source/world_builder/grains.cc'
 GDEF = {'WB_VEC_CAP': 2, 'WB_CAP_vec_double': 24, 'WB_CAP_vec_arr_arr_double_3_3': 2}
@@ -215,8 +235,40 @@ def reference(feats, x, y, depth, ncomp=4):
     return T, comp, tag
 
 
+def plume_fold_oracle(work):
+    """inside a plume the temperature (composition) models fold in list order over the value painted so far"""
+    import oracle
+    plume = {"model": "plume", "name": "P", "min depth": 5e3, "max depth": 300e3, "coordinates": [[500e3, 500e3], [500e3, 500e3]],
+             "cross section depths": [50e3, 250e3], "semi-major axis": [100e3, 100e3], "eccentricity": [0.0, 0.0], "rotation angles": [0, 0]}
+    cases = [([{"model": "uniform", "temperature": 1800.0}, {"model": "uniform", "temperature": 50.0, "operation": "add"}], 1850.0),
+             ([{"model": "uniform", "temperature": 1800.0}, {"model": "uniform", "temperature": 50.0, "operation": "add"},
+               {"model": "uniform", "temperature": 25.0, "operation": "subtract"}], 1825.0),
+             ([{"model": "uniform", "temperature": 10.0, "operation": "add"}, {"model": "uniform", "temperature": 10.0, "operation": "add"}], 1020.0)]
+    for models, expect in cases:
+        text = json.dumps({"version": "1.1", "coordinate system": {"model": "cartesian"}, "features": [
+            {"model": "mantle layer", "name": "M", "min depth": 0, "max depth": 400e3, "coordinates": [[0, 0], [1000e3, 0], [1000e3, 1000e3], [0, 1000e3]],
+             "temperature models": [{"model": "uniform", "temperature": 1000.0}]},
+            dict(plume, **{"temperature models": models})]})
+        q = oracle.Q(text, work, name='plume_fold')
+        try:
+            if q.construct_error:
+                return dict(status='error', detail=q.construct_error)
+            for d in [100e3, 200e3]:
+                st, v = q.ask('t3 500e3 510e3 %r %r' % (1000e3 - d, d))
+                if st == 'OK' and abs(float.fromhex(v[0]) - expect) > 1e-9:
+                    return dict(status='violated', world=dict(plume, **{"temperature models": models}), point=[500e3, 510e3, d],
+                                detail='plume over a 1000 K mantle layer with temperature models %s: inside the plume at depth %g km the library returns %r, the in-order fold gives %r'
+                                       % (json.dumps(models), d / 1e3, float.fromhex(v[0]), expect))
+        finally:
+            q.close()
+    return None
+
+
 def native_oracle(witness, work, search_seed=None):
     import oracle
+    r_ = plume_fold_oracle(work)
+    if r_ is not None:
+        return r_
     rnd = random.Random(search_seed if search_seed is not None else 1)
     nworlds = 25
     for wi in range(nworlds):
